@@ -119,6 +119,7 @@ fn gen_file_bytes(w: &mut Tape) -> Result<(Syntax, Vec<u8>, ds::Layout, usize), 
         latin1: w.chance(1, 4),
         utf8: w.chance(1, 5),
         other_cs: [0u8, 0, 0, 0, 3, 4][w.below(6) as usize],
+        nested_charset: true,
     };
     let model = restrict_to(&ds::gen_dataset(w, &gcfg), syn);
     let (dataset, layout) = ds::encode(&model, syn, None).map_err(harness)?;
@@ -242,6 +243,7 @@ fn run_dataset(w: &mut Tape, env: &EnvRef) -> RunResult {
         latin1: w.chance(1, 4),
         utf8: w.chance(1, 5),
         other_cs: [0u8, 0, 0, 0, 3, 4][w.below(6) as usize],
+        nested_charset: true,
     };
     let model = restrict_to(&ds::gen_dataset(w, &gcfg), syn);
     let (mut bytes, layout) = ds::encode(&model, syn, None).map_err(harness)?;
@@ -406,6 +408,7 @@ fn run_json(w: &mut Tape, env: &EnvRef) -> RunResult {
         latin1: false,
         utf8: false,
         other_cs: 0,
+        nested_charset: false,
     };
     let model = model_items_undef(&restrict_to(&ds::gen_dataset(w, &gcfg), Syntax::ImplicitLE));
     let obj = build_object(&model, Syntax::ExplicitLE);
